@@ -47,7 +47,7 @@ def jrefOkB (K : Consts) (hp : Heap) (f : Feature) : Val → Bool
 /-- `JFeatOk K ts c ci hp isAnn o f` -/
 def jfeatOkB (K : Consts) (ts : TypeSystem) (c : Cas) (ci : Nat) (hp : Heap) (isAnn : Bool) (o : Obj) (f : Feature) :
     Bool :=
-  decide (f.reserved = false) && decide (f.name ≠ "xmiID") && decide (f.name ≠ "type") && decide (f.name ≠ "self") &&
+  decide (ResOk f) && decide (f.name ≠ "xmiID") && decide (f.name ≠ "type") && decide (f.name ≠ "self") &&
   decide (f.name ≠ ID) &&
   match alistGet? o.slots f.name with
   | none => false
